@@ -161,11 +161,15 @@ type state struct {
 	pruneFn   func(key uint64, pre int, idx int) bool
 	pruned    bool
 	// closed channels
-	closed  [256]uintptr
-	nclosed int
+	closed [256]uintptr
+	// closedKeep holds the closed channels themselves: as long as an address is in the table the channel must not be
+	// collected, or a channel made later in the same execution can get the address and would count as closed
+	closedKeep [256]any
+	nclosed    int
 	// external channels (fed by the driver: tickers, timers, signals); a thread blocked on one is idle, not stuck
-	ext  [64]uintptr
-	next int
+	ext     [64]uintptr
+	extKeep [64]any // keeps the registered channels alive (see closedKeep)
+	next    int
 	// keys hook
 	keysHook func(site string, n int) []int
 	panics   int
@@ -221,7 +225,13 @@ func Reset(c Config) {
 	}
 	s.pruneFn = nil
 	s.pruned = false
+	for i := 0; i < s.nclosed; i++ {
+		s.closedKeep[i] = nil
+	}
 	s.nclosed = 0
+	for i := 0; i < s.next; i++ {
+		s.extKeep[i] = nil
+	}
 	s.next = 0
 	s.keysHook = nil
 	s.panics = 0
@@ -1016,6 +1026,7 @@ func MarkClosed(ch any) {
 	v := reflect.ValueOf(ch)
 	if s.nclosed < len(s.closed) {
 		s.closed[s.nclosed] = v.Pointer()
+		s.closedKeep[s.nclosed] = ch
 		s.nclosed++
 	} else {
 		panic("vrt: closed channel table full")
@@ -1033,6 +1044,7 @@ func External(ch any) {
 	v := reflect.ValueOf(ch)
 	if s.next < len(s.ext) {
 		s.ext[s.next] = v.Pointer()
+		s.extKeep[s.next] = ch
 		s.next++
 	}
 }
@@ -1215,7 +1227,10 @@ type keySorter[K any] struct {
 
 func (x *keySorter[K]) Len() int           { return len(x.k) }
 func (x *keySorter[K]) Less(i, j int) bool { return x.s[i] < x.s[j] }
-func (x *keySorter[K]) Swap(i, j int)      { x.k[i], x.k[j] = x.k[j], x.k[i]; x.s[i], x.s[j] = x.s[j], x.s[i] }
+func (x *keySorter[K]) Swap(i, j int) {
+	x.k[i], x.k[j] = x.k[j], x.k[i]
+	x.s[i], x.s[j] = x.s[j], x.s[i]
+}
 
 // ObjID returns a stable-within-execution identity for a pointer.
 func ObjID(p unsafe.Pointer) uintptr { return uintptr(p) }
